@@ -1181,6 +1181,17 @@ pub fn band_of(l5: u64) -> Option<&'static str> {
     }
 }
 
+/// bands judged on the LOW limb l0 of the canonical integer: the low 16 bits are 0, 1 or all ones (a test that
+/// looks at a truncated value - "x == 1" on the low bits - needs exactly such a coordinate)
+pub fn low_band_of(l0: u64) -> Option<&'static str> {
+    match l0 & 0xffff {
+        0 => Some("low16=0"),
+        1 => Some("low16=1"),
+        0xffff => Some("low16=ones"),
+        _ => None,
+    }
+}
+
 pub fn find_banded(g2: bool, trials: u64, threads: u64) {
     use ff_zeroize::PrimeField;
     use pairing_plus::bls12_381 as crt;
@@ -1222,6 +1233,12 @@ pub fn find_banded(g2: bool, trials: u64, threads: u64) {
                                     report(k + i as u64, "y", b, &mut seen);
                                 }
                             }
+                            if let Some(b) = low_band_of(x.into_repr().0[0]) {
+                                report(k + i as u64, "x", b, &mut seen);
+                            }
+                            if let Some(b) = low_band_of(y.into_repr().0[0]) {
+                                report(k + i as u64, "y", b, &mut seen);
+                            }
                         }
                         k += chunk as u64;
                         done += chunk as u64;
@@ -1243,6 +1260,11 @@ pub fn find_banded(g2: bool, trials: u64, threads: u64) {
                             let (x, y) = a.as_tuple();
                             for (name, c) in [("x.c0", &x.c0), ("x.c1", &x.c1)] {
                                 if let Some(b) = band_of(c.into_repr().0[5]) {
+                                    report(k + i as u64, name, b, &mut seen);
+                                }
+                            }
+                            for (name, c) in [("x.c0", &x.c0), ("x.c1", &x.c1), ("y.c0", &y.c0), ("y.c1", &y.c1)] {
+                                if let Some(b) = low_band_of(c.into_repr().0[0]) {
                                     report(k + i as u64, name, b, &mut seen);
                                 }
                             }
